@@ -91,7 +91,7 @@ class Implementation:
         if gil_disabled and name != "cpython":
             raise UnsupportedImplementation("Only CPython supports GIL disabled mode")
         if name in ("cpython", "pypy", "pyston"):
-            return cls(name, gil_disabled)
+            return cls(name, bool(gil_disabled))
         else:
             raise UnsupportedImplementation(
                 f"Unsupported implementation: {name}, expected cpython, pypy, or pyston"
